@@ -19,7 +19,12 @@ func writeLineWithTabs(w io.Writer, format string, depth int, args ...string) {
 			receiver = assigner[1:]
 		} else {
 			if assigner[0] == '(' {
-				receiver = "(*" + assigner[1:]
+				// the dereference belongs to the innermost operand: ((x)[i])[j] -> ((*x)[i])[j]
+				n := 0
+				for n < len(assigner) && assigner[n] == '(' {
+					n++
+				}
+				receiver = assigner[:n] + "*" + assigner[n:]
 			} else {
 				receiver = "*" + assigner
 			}
